@@ -28,6 +28,8 @@ structure Input where
                             -- mismatching digest, `tag@digest` form); must not matter beyond `ref`
   flavors : List Nat        -- per listed signature: which error value a failing fetch / verification
                             -- returns (plain, wrapping context.DeadlineExceeded / Canceled, typed ...); must not matter
+  sameAs : List Int         -- per listed signature: -1 or the earlier position whose manifest it repeats (a
+                            -- listing may name one manifest twice: both entries count); must not matter
   deriving Repr, FromJson, ToJson
 
 structure Obs where
